@@ -24,6 +24,8 @@ pub enum XEv {
     Map { index: u64, count: u32, domid: u32, consecutive: bool },
     Unmap { index: u64, count: u32, was_live: bool },
     Foreign { num: u32, domid: u16, addr: usize, first_pfn: u64 },
+    /// a request arrived on the registered descriptor number after that descriptor was closed
+    ClosedDescriptor { req: u64 },
 }
 
 #[derive(Default)]
@@ -68,6 +70,17 @@ fn handler(fd: i32, req: u64, arg: *mut libc::c_void) -> Option<i32> {
     let st = g.as_mut()?;
     if fd != st.fd {
         return None;
+    }
+    // the descriptor NUMBER is the registered one - but is it still open? A request on a closed
+    // descriptor fails with EBADF in the kernel before any driver sees it; the emulator does the same
+    // (a library that lets the device file go while a mapping made through it is still live would
+    // otherwise be served by the emulator as if nothing had happened).
+    // SAFETY: querying the descriptor flags has no side effect.
+    if unsafe { libc::fcntl(fd, libc::F_GETFD) } == -1 {
+        st.log.push(XEv::ClosedDescriptor { req });
+        // SAFETY: errno of the calling thread.
+        unsafe { *libc::__errno_location() = libc::EBADF };
+        return Some(-1);
     }
     match req {
         IOCTL_GNTDEV_MAP_GRANT_REF => {
